@@ -560,6 +560,56 @@ pub fn byte_view_algebra<T: Lay>(bits: u128, raw: &[u8]) -> Result<(), String> {
     Ok(())
 }
 
+// ------------------------------------------------------------------ exhaustive 32-bit sweep (lean)
+
+/// Minimal sink for the lean sweep (no logging): the bytes of one value.
+pub struct ArrOut {
+    pub buf: [u8; 24],
+    pub n: usize,
+}
+impl Output for ArrOut {
+    #[inline]
+    fn write(&mut self, bytes: &[u8]) {
+        let k = bytes.len().min(self.buf.len() - self.n);
+        self.buf[self.n..self.n + k].copy_from_slice(&bytes[..k]);
+        self.n += bytes.len();
+    }
+}
+
+/// Every bit pattern in `lo..=hi` of a 32-bit layout through the canonical pair: `encode_to` must write
+/// exactly the four little-endian bytes, `decode` of them must return the bits and consume all four,
+/// and (for one pattern in 256) the three-byte prefix must fail. Returns the first offending pattern. Lean on purpose (a few
+/// nanoseconds per pattern); anything it finds is re-executed as an ordinary one-record history.
+pub fn sweep32<T: Lay>(lo: u32, hi: u32) -> Option<u32> {
+    if T::W != 32 {
+        return None;
+    }
+    let mut v = lo;
+    loop {
+        let x = T::fb(v as u128);
+        let mut out = ArrOut { buf: [0; 24], n: 0 };
+        x.encode_to(&mut out);
+        let le = v.to_le_bytes();
+        let mut ok = out.n == 4 && out.buf[..4] == le;
+        if ok {
+            let mut s: &[u8] = &le;
+            ok = matches!(T::decode(&mut s), Ok(y) if y.tb() == v as u128) && s.is_empty();
+        }
+        if ok && v & 0xff == 0x5a {
+            // building the codec error allocates; the short-input check is done for one pattern in 256
+            let mut s: &[u8] = &le[..3];
+            ok = T::decode(&mut s).is_err();
+        }
+        if !ok {
+            return Some(v);
+        }
+        if v == hi {
+            return None;
+        }
+        v += 1;
+    }
+}
+
 // ------------------------------------------------------------------ dispatch table
 
 #[derive(Clone, Copy)]
@@ -581,6 +631,7 @@ pub struct Ops {
     pub mel_twin: fn(Shape) -> Option<usize>,
     pub sizes: fn(u128) -> (usize, usize, usize),
     pub b1: fn(u128, &[u8]) -> Result<(), String>,
+    pub sweep32: fn(u32, u32) -> Option<u32>,
     pub serde: crate::serde_tok::SerdeOps,
     pub meta_check: fn() -> Result<(), String>,
 }
@@ -616,6 +667,7 @@ pub fn ops<T: LayAll>(name: &'static str, fam: u8, frac: u32) -> Ops {
         mel_twin: mel_codec::<T::Int>,
         sizes: sizes::<T>,
         b1: byte_view_algebra::<T>,
+        sweep32: sweep32::<T>,
         serde: crate::serde_tok::serde_ops::<T>(),
         meta_check: crate::meta::check_metadata::<T>,
     }
